@@ -218,6 +218,36 @@ CLAIMS = {
              "on the program path; float formats are out of the encoder's reach.",
         note=PYVC_TRUST + "; " + BPFVC_TRUST + "; host little endian; descriptor resolution (ProcessDesc/StructDesc) "
              "is exercised on the real objects when the probe programs are built, not symbolically"),
+    "C24": dict(
+        engine="pyvc", category="other", design_ref="DESIGN.md section 4 C24",
+        technique="contract-based deductive verification: exceptional postconditions on the real source of "
+                  "SyncGroupBase.run / map_fmmu, FastSyncGroup.run, FastEtherCat.register_sync_group and "
+                  "ProcessSyncGroup.wait_for_process with CancelledError as an exceptional exit of every await "
+                  "(assumed contracts of gather, wait_for, AsyncExitStack, the program table and the pidfd)",
+        text="For a cancellation at any await before the clean-up starts (each await is an exceptional exit, not "
+             "an enumerated injection point): the coroutine ends with CancelledError and nothing else; every "
+             "terminal that may have been written OPERATIONAL (any subset of a cancelled gather) is written "
+             "SAFE-OPERATIONAL afterwards; every FMMU mapping entered is left; a fast group's program-table entry "
+             "is deleted under the key it was registered with and the group is no longer listed; a process group "
+             "tells the child to stop and ends only after the child's pidfd became readable. Proved for groups "
+             "of 1-2 terminals (any flags, any subset of mappings) - bounded in the number of terminals.",
+        note=PYVC_TRUST + "; asyncio contracts assumed (gather cancels its children, any subset may have run); "
+             "Terminal.map_fmmu by its C20 contract; one cancellation per run; ProcessSyncGroup.start/subprocess "
+             "side (spawn) is not under contract"),
+    "C28": dict(
+        engine="pyvc", category="other", design_ref="DESIGN.md section 4 C28",
+        technique="contract-based deductive verification: step contract of the handshake on the real source of "
+                  "Serial.update (ghost sequences for the two pipes, all terminal inputs and pipe outcomes "
+                  "symbolic), invariant established by the initialisation step, z3",
+        text="For every state of the handshake bits, every in_string and every outcome of the non-blocking pipe "
+             "read: a toggle of receive_request delivers in_string exactly once and toggles receive_accept once, "
+             "nothing is delivered or acknowledged otherwise; while a chunk is outstanding nothing is read, "
+             "out_string keeps it and transmit_request does not move; a free channel takes the next chunk once, "
+             "presents it and announces it with exactly one toggle; initialisation transfers nothing and "
+             "establishes the invariant. The exactly-once / in-order statement over a whole history is the "
+             "induction over cycles with these clauses (composed by hand, hence level other).",
+        note=PYVC_TRUST + "; TerminalVar attributes as plain fields (C19); pipe contract for os.read/os.write; "
+             "terminal behaviour unconstrained"),
 }
 
 NA = {
